@@ -40,17 +40,37 @@ def run(ctx):
             failures.append({"case": cc.case_view(c), "why": why, "replay": {"expr": c["expr"], "loc": c["loc"], "prev": c["prev"]}})
     failures += [p for p in cc.harness_problems(recs + recs_b) if p["kind"] in ("hang", "crash")]
     mism = [{"case": cc.case_view(c), "what": "model and implementation return different results"} for c in cases if c["model"] != c["go"]]
+    # calendar helpers and L/W/# day targets: every leap year and every 9th year (thorough: every year) of 1969..2263
+    ystep = 9 if ctx.tier == "quick" else 1
+    naux, auxbad = cc.aux_compare(cc.run_aux(hbin, dbin, "cal", ystep) + cc.run_aux(hbin, dbin, "dayn", ystep))
+    mism += [{"case": b, "what": "calendar helper / day target differs between model and implementation"} for b in auxbad]
+
+    def is_failure(c):
+        why = []
+        if c["ref"] not in ("-", "M") and c["ref"] != c["go"]:
+            why.append("the declarative reference search finds %s, the implementation returned %s" % (c["ref"], c["go"]))
+        if c["oracle"] not in ("-",) and c["oracle"] != c["go"]:
+            why.append("the independent day-by-day oracle finds %s, the implementation returned %s" % (c["oracle"], c["go"]))
+        return why
 
     def search():
+        found = cc.directed_from_calendar(hbin, dbin, auxbad, is_failure)
+        if found:
+            return found
         recs2 = cc.run_sharded(hbin, dbin, "fixed", ctx.seed + 8888, 20000, extra=["-brute"])
-        return [{"case": cc.case_view(c), "why": ["reference %s / oracle %s vs implementation %s" % (c["ref"], c["oracle"], c["go"])],
-                 "replay": {"expr": c["expr"], "loc": c["loc"], "prev": c["prev"]}}
-                for r in recs2 for c in r["cases"] if (c["ref"] != c["go"] or c["oracle"] != c["go"])][:3]
+        out = []
+        for r in recs2:
+            for c in r["cases"]:
+                why = is_failure(c)
+                if why:
+                    out.append({"case": cc.case_view(c), "why": why, "replay": {"expr": c["expr"], "loc": c["loc"], "prev": c["prev"]}})
+        return out[:3]
 
     vlib.decide(ctx, broken, failures, mism, search)
     cov = vlib.proof_coverage(res, PROJ, "C02")
     cov.update({
-        "evaluations": len(cases),
+        "evaluations": len(cases) + naux,
+        "calendar_sweep": naux,
         "distinct_nontrivial": cc.distinct_nontrivial(cases),
         "rule": "same generator as C01 (all nine day-rule kinds, year sets ending before/at/after prev, days 29-31, L-k, n#5); every result compared with the extracted "
                 "reference search; %d expressions additionally with the Go brute-force oracle; non-trivial = a fire time other than prev's next second" % brute_n,
